@@ -1,10 +1,13 @@
 (** Extraction of the executable model for the correspondence check.
     Only [ExtrOcamlBasic] (bool, option, list, prod, unit, sumbool -> OCaml natives); [N], [positive],
-    [comparison] stay the extracted inductive types; no [Extract Constant]. *)
+    [comparison], [sum] stay the extracted inductive types; no [Extract Constant]. *)
 From Coq Require Import Extraction ExtrOcamlBasic NArith List.
-From PV Require Import Names.NameModel.
+From PV Require Import Names.NameModel Base.Order Base.CutDef DD.DDModel Marker.Concrete.
 Extraction Language OCaml.
 Separate Extraction
   N.add N.mul N.div_eucl N.eqb N.of_nat
-  Names.NameModel.normalize_ref Names.NameModel.normalize_owned Names.NameModel.valid_name
-  Names.NameModel.spec_norm Names.NameModel.dist_info Names.NameModel.spec_dist_info.
+  NameModel.normalize_ref NameModel.normalize_owned NameModel.valid_name
+  NameModel.spec_norm NameModel.dist_info NameModel.spec_dist_info
+  Concrete.m_and Concrete.m_or Concrete.m_not Concrete.m_disjoint Concrete.m_eval Concrete.m_wfb Concrete.m_eqb
+  Concrete.m_simplify_extras Concrete.m_eval_extras Concrete.m_val_cmp Concrete.m_var_cmp
+  Concrete.substring Concrete.is_range.
